@@ -43,10 +43,12 @@ def check_kernel_containment(run, tree):
             continue
         base, idx, val, guards, aug, st = stores[0]
         loopvars = [l[0] for l in ev.loops]
-        if len(loopvars) != 4:
-            run.unresolved(construct, fi.where(), "expected a cell loop and three pixel loops, found %s" % loopvars)
+        if len(loopvars) < 4:
+            run.unresolved(construct, fi.where(), "expected cell loop(s) and three pixel loops, found %s" % loopvars)
             continue
-        n, k, j, i = loopvars
+        n, k, j, i = loopvars[-4:]
+        if ndim == 3:
+            check_cell_coverage(run, fi, ev)
         want_idx = (slice(None, None, None), Poly.sym(k), Poly.sym(j), Poly.sym(i))
         ok_idx = isinstance(idx, tuple) and len(idx) == 4 and isinstance(idx[0], slice) and all(
             isinstance(a, Poly) and a == b for a, b in zip(idx[1:], want_idx[1:]))
@@ -93,9 +95,10 @@ def check_kernel_footprint(run, tree):
         run.unresolved(KERNEL + "::footprint", fi.where(), "cannot evaluate the kernel symbolically: %s" % e)
         return
     loops = ev.loops
-    if len(loops) != 4:
-        run.unresolved(KERNEL + "::footprint", fi.where(), "expected 4 loops")
+    if len(loops) < 4:
+        run.unresolved(KERNEL + "::footprint", fi.where(), "expected cell loop(s) and 3 pixel loops")
         return
+    loops = loops[-4:]
     n = loops[0][0]
     cs = Poly.sym("cell_sizes[%s]" % n)
     sq = Poly.sym("sqrt(ndim)")
@@ -172,6 +175,58 @@ def _check_half_extent(H, cs, sq, which):
     if c2.const_value() < 1:
         return ["%s half-extent factor %s < 1" % (which, c2.const_value())]
     return []
+
+
+def check_cell_coverage(run, fi, ev):
+    """Every cell index in [0, ncells) is visited exactly once by the loop nest above the pixel loops, for every thread count
+    (the loop BOUNDS are evaluated for small sizes; the body is not run)."""
+    from .kernel_rules import cell_iteration_space
+    cell_loops = ev.loops[:-3]
+    construct = KERNEL + "::cell-loop-coverage"
+    ncells_sym = "len(cell_positions_in_new_basis_x)"
+    syms = set()
+    for var, lo, hi in cell_loops:
+        for e in (lo, hi):
+            for x in _poly_symbols(e):
+                syms.add(x)
+    lens = sorted(x for x in syms if x.startswith("len(") or x.endswith(".shape[0]"))
+    if len(lens) != 1:
+        run.unresolved(construct, fi.where(), "cell loop bounds depend on %s" % sorted(syms))
+        return
+    ncells_sym = lens[0]
+    bad = None
+    n_cases = 0
+    try:
+        for nthreads in (1, 2, 3, 4, 7, 16):
+            for ncells in range(0, 20):
+                got = cell_iteration_space(cell_loops, ncells_sym, ncells, nthreads)
+                n_cases += 1
+                if sorted(got) != list(range(ncells)):
+                    missing = sorted(set(range(ncells)) - set(got))
+                    dup = sorted({x for x in got if got.count(x) > 1})
+                    extra = sorted(set(got) - set(range(ncells)))
+                    bad = "%d cells on %d threads: cells %s never visited, %s visited twice, %s out of range" % (ncells, nthreads, missing or "none", dup or "none", extra or "none")
+                    break
+            if bad:
+                break
+    except (Unsupported, ZeroDivisionError) as e:
+        run.unresolved(construct, fi.where(), "cannot evaluate the loop bounds: %s" % e)
+        return
+    run.ob(construct, bad is None, fi.where(), bad or "loops %s visit every cell exactly once (%d size/thread combinations)" % (
+        [(v, repr(lo), repr(hi)) for v, lo, hi in cell_loops], n_cases),
+           "cells left over by a block decomposition are never painted: holes in the map for cell counts that are not a multiple of the thread count")
+
+
+def _poly_symbols(e):
+    from .kernel_rules import Wrapped
+    if isinstance(e, Poly):
+        return set(e.symbols())
+    if isinstance(e, Wrapped):
+        out = set()
+        for a in e.args:
+            out |= _poly_symbols(a)
+        return out
+    return set()
 
 
 def check_kernel_schedule(run, tree):
